@@ -25,7 +25,7 @@ from .. import model as M
 
 PROP = 'C14'
 ALPHABET = ['a', 'b', 'c']
-BEYOND_ALPHABET = ['a', 'b', 'c', 'd', 'E_1']
+BEYOND_ALPHABET = ['a', 'ab', 'a_b', 'b', 'E_1']   # textual prefixes of one another on purpose
 HOSTILE = ['a', 'Z', '_', '7', '.', ':', ' ', '\n', 'é', '٣', '-', '\t']
 EXTRA_HOSTILE = ['\r', '\x00', '\u00aa', '\uff21', '\u200b', '\u2167', '$', '0']
 ID_CHARS = ['a', 'Z', '_', '7']
